@@ -75,11 +75,16 @@ Hosts == {"stmt", "declrhs", "assignrhs", "oprhs", "idxtarget", "ifcond", "while
           "loperand", "indexsrc", "rindexsrc", "rindexstart", "rangestart", "rangeend", "objspread", "callspread",
           "arrowrecv", "propassignrecv", "idxassignrecv", "rangeassignrecv", "rangeassignstart", "rangeassignend",
           "destructkey", "fortargetidx", "opassigntargetidx", "declpatidx", "nestedslot", "fnbodyexpr", "methodarg",
-          "elsebody", "forbody", "whilebody", "rangeassignrhs", "destructrhs"}
+          "elsebody", "forbody", "whilebody", "rangeassignrhs", "destructrhs",
+          \* after literals with multi-byte text on the same line
+          "afterstr", "afteristr"}
 Q == Nm(<<113>>)
 Host(h, e) ==
     CASE h = "stmt"       -> <<SExpr(e)>>
       [] h = "declrhs"    -> <<SDecl(Q, e)>>
+      [] h = "afterstr"   -> <<SDecl(Q, EList(<<EStr(<<97, 195, 169, 226, 130, 172, 32, 240, 159, 152, 128, 122>>), e>>))>>
+      [] h = "afteristr"  -> <<SDecl(Q, EBin("+", EIStr(<<Lit(<<103, 114, 195, 182, 195, 159, 101, 58>>), SlotP(0, EStr(<<120, 195, 169>>)),
+                                                          Lit(<<32, 226, 130, 172>>)>>), e))>>
       [] h = "assignrhs"  -> <<SAssign(Vv, e)>>
       [] h = "oprhs"      -> <<SOpAssign(Vv, "+", e)>>
       [] h = "idxtarget"  -> <<SAssign(EIndex(Xs, e), I(1))>>
